@@ -10,5 +10,6 @@ namespace Lemmas.GenWriteSites
 theorem sites : Gen.WriteSites.sites = Model.Purity.sites := by decide +kernel
 theorem selfAssigns : Gen.WriteSites.selfAssigns = Model.Purity.selfAssigns := by decide +kernel
 theorem globalState : Gen.WriteSites.globalState = Model.Purity.globalState := by decide +kernel
+theorem callArgs : Gen.WriteSites.callArgs = Model.Purity.callArgs := by decide +kernel
 
 end Lemmas.GenWriteSites
